@@ -810,17 +810,25 @@ def disjoint_rules(chk, repo):
     ok_rec = bool(inloop) and all(recursive(p) for p in inloop)
     if ok_rec and guarded is None:
         ok_rec = None
+    # the merge written as a loop that runs until no pair is left (pair picked by a helper / a generator): the same steps are
+    # then found in the loop body; how the pair is selected is not decided here
+    body_states = []
+    if not inloop:
+        for p in rets:
+            for lp in p.state.loops:
+                for b in lp['states']:
+                    evs_b = b.events[lp['n_pre_events']:]
+                    if any(e.kind == 'write' and e.data.get('how') in ('method:extend',) for e in evs_b):
+                        body_states.append((p, evs_b))
+        if body_states:
+            ok_rec = None
     chk.ob('C06-f', 'structural', fd.key, 'an intersecting pair is merged and the scan restarts', ok_rec,
            'return inside the pair loop is the recursive call guarded by intersect(...)' if ok_rec else
            ('the merge restarts the scan; how the touching pair is selected is not a branch condition (undecided)' if ok_rec is None else
             'the pair loop does not restart after merging an intersecting pair'), fd.loc())
     # the merged group's extent must be recomputed from the group *after* the new members joined it
     ok_ord, n_ord, det_ord = True, 0, ''
-    for p in inloop:
-        n_pre = 0
-        for lp in p.state.loops:
-            n_pre = max(n_pre, 0)
-        evs = p.events
+    for p, evs in [(p, p.events) for p in inloop] + body_states:
         ext = [i for i, e in enumerate(evs) if e.kind == 'write' and (e.data.get('how') == 'method:extend' or
                                                                      (e.data.get('how') == 'augassign' and e.data.get('op') == 'add'))]
         bnd = [i for i, e in enumerate(evs) if e.kind == 'call' and e.data.get('callee') == 'field.boundary']
@@ -856,6 +864,8 @@ def disjoint_rules(chk, repo):
     params_ = set(fd.param_names())
     ok_fin = bool(final) and all(root_sym(p.ret) in params_ | {'fields'} or (isinstance(p.ret, Poly) and p.ret.single_atom() is not None
                                                                              and p.ret.single_atom()[0] in ('loop', 'sym')) for p in final)
+    if body_states and not ok_fin:
+        ok_fin = None
     chk.ob('C06-f', 'structural', fd.key, 'returns only after a full scan without intersection', ok_fin,
            '' if ok_fin else f'{len(final)} non-recursive exits', fd.loc())
     fr = repo.func('field.reduce')
